@@ -70,6 +70,22 @@ def doy_on_or_after(ts, day, month):
     raise ValueError("no such date")
 
 
+def dowdom_candidates(ts, w, n):
+    """weekday + day of month: the nearest date not before today with that weekday and that
+    day of month. When today itself matches, the convention is open (a single weekday or day of
+    month equal to today's rolls on, a day+month stays): both today and the next match are
+    accepted."""
+    d = ts.date()
+    found = []
+    for i in range(0, 366 * 12):
+        c = d + timedelta(days=i)
+        if c.day == n and c.weekday() == w:
+            found.append(_d(c))
+            if i > 0 or len(found) == 2:
+                break
+    return found
+
+
 def pod_day(ts, pod, start_hour):
     """today if the part of day's start (hh:00) is strictly after the reference instant,
     else tomorrow; the part of day is preserved"""
